@@ -51,6 +51,7 @@ enum {
   MVP_COND_WAIT_A = 430, MVP_COND_SIGNAL_A = 431, MVP_COND_BCAST_A = 432,
   MVP_BARRIER_A = 440, MVP_BARRIER_B = 441, MVP_BARRIER_C = 442, MVP_BARRIER_D = 443,
   MVP_SSTACK_POP = 444, MVP_SSTACK_PUSH = 445,
+  MVP_SQ_ENQ_A = 446, MVP_SQ_ENQ_B = 447, MVP_SQ_DEQ_A = 448, MVP_SQ_DEQ_B = 449,
   MVP_JC_WAIT_A = 450, MVP_JC_WAIT_B = 451, MVP_JC_DEC_A = 452, MVP_JC_DEC_B = 453,
   MVP_UNCOND_WAIT_CB_A = 460, MVP_UNCOND_WAIT_CB_B = 461, MVP_UNCOND_SIG_A = 462,
   MVP_UNCOND_SIG_B = 463, MVP_UNCOND_WAIT_A = 464,
